@@ -182,7 +182,8 @@ import datetime as _dt
 import math as _math
 import decimal as _decimal
 _PURE_LIBS = {'re': _re, 'datetime': _dt, 'math': _math, 'decimal': _decimal}
-_PURE_TYPES = (_re.Match, _re.Pattern, _dt.datetime, _dt.date, _dt.timedelta, _dt.time, _decimal.Decimal, _decimal.Context)
+import time as _time
+_PURE_TYPES = (_re.Match, _re.Pattern, _dt.datetime, _dt.date, _dt.timedelta, _dt.time, _decimal.Decimal, _decimal.Context, _time.struct_time)
 _PURE_DENY = {'datetime.datetime.now', 'datetime.datetime.today', 'datetime.date.today', 'datetime.datetime.utcnow'}
 
 
@@ -886,6 +887,9 @@ class Interp:
             found, res = self._builtin_on_rec(ref[8:], args)
             if found:
                 return res
+        if ref and ref.startswith('builtin:') and ref[8:] in ('sum', 'min', 'max', 'any', 'all', 'sorted') and args \
+                and isinstance(args[0], (list, tuple, set)) and any(isinstance(x_, Rec) for x_ in args[0]):
+            return self._aggregate(ref[8:], args, kwargs)
         if ref and ref.startswith('builtin:') and ref[8:] in _PURE and _PURE[ref[8:]] is not None \
                 and not (isinstance(fn, ast.Name) and fn.id == ref[8:]):
             if not any(isinstance(a_, (Opaque, Ref, Rec)) for a_ in args):
@@ -1335,6 +1339,12 @@ class Interp:
                 return True
             if r.startswith('builtin:'):
                 py = getattr(_builtins, r[8:], None)
+                if isinstance(py, type) and isinstance(val, py):
+                    return True
+            elif r.startswith('ext:') and r[4:].split('.')[0] in _PURE_LIBS:
+                py = _PURE_LIBS[r[4:].split('.')[0]]
+                for part in r[4:].split('.')[1:]:
+                    py = getattr(py, part, None)
                 if isinstance(py, type) and isinstance(val, py):
                     return True
         return False
